@@ -18,7 +18,7 @@ AEADS = [("chachapoly", 32, 8, 16), ("chachapoly_ietf", 32, 12, 16), ("xchachapo
 
 def configs(tier):
     if tier == "quick":
-        return [("native", "", "plain"), ("native", vcore.ALL_OFF, "plain")]
+        return [("native", "", "plain"), ("native", vcore.ALL_OFF, "plain"), ("native", "", "plain", {"HX_ALIGN": "5"})]
     return [(v, m, "plain") for v in vcore.VARIANTS for m in ("", "avx512f,avx2", "avx512f,avx2,avx1", vcore.ALL_OFF)]
 
 
